@@ -368,11 +368,39 @@ func caseC10(c *Ctx) {
 		c.Failf("C10:no-result:"+cls, "massive mode did not return (hang=%v stepcap=%v); simple mode returned %s", got.Hang, got.StepCap, errStr(ref.Err))
 	}
 	c.failLateEffects("C10", s.op, got)
+	// The known finding for documents whose blocks do not indent alike is that the result
+	// depends on which block teaches the shared parser first. When the blocks are parsed in
+	// document order the parser sees what simple mode sees, so that schedule must agree with
+	// simple mode; if even it does not, the difference is something else.
+	docOrder := func() {
+		if !strings.Contains(cls, "mixed-units") || strings.Contains(cls, "sharp-roots") {
+			return
+		}
+		d3 := s.prepareTarget(c, 3)
+		env3 := mk(d3)
+		env3.Chooser = c.Chooser("docorder", stratFirst)
+		c.st.Count("document-order-schedule-runs")
+		g3 := c.Sim("docorder", s.op, env3)
+		snap3 := targetSnap(d3)
+		dropJail(d3)
+		if len(g3.Panics) > 0 || g3.Hang || g3.StepCap {
+			return
+		}
+		if (ref.Err == nil) != (g3.Err == nil) {
+			c.Failf("C10:differs-even-when-blocks-are-parsed-in-document-order:"+s.op.Kind+":error-iff", "simple: %s\nmassive with every block parsed in document order: %s", errStr(ref.Err), errStr(g3.Err))
+		}
+		if ref.Err == nil {
+			if clause, why := sameResult(c, s.op, s.parts, trees, ref, g3, refSnap, snap3); clause != "" {
+				c.Failf("C10:differs-even-when-blocks-are-parsed-in-document-order:"+s.op.Kind+":"+clause, "%s", why)
+			}
+		}
+	}
 	if (ref.Err == nil) != (got.Err == nil) {
 		which := "simple=ok,massive=error"
 		if ref.Err != nil {
 			which = "simple=error,massive=ok"
 		}
+		docOrder()
 		c.Failf("C10:error-iff:"+cls+":"+s.op.Kind+":"+which, "simple: %s\nmassive: %s%s", errStr(ref.Err), errStr(got.Err), diskDetail(got))
 	}
 	if ref.Err != nil {
@@ -383,6 +411,7 @@ func caseC10(c *Ctx) {
 		return
 	}
 	if clause, why := sameResult(c, s.op, s.parts, trees, ref, got, refSnap, gotSnap); clause != "" {
+		docOrder()
 		c.Failf("C10:"+clause+":"+cls+":"+s.op.Kind, "%s", why)
 	}
 }
